@@ -20,7 +20,7 @@ pub fn run(run: &mut Run) {
         .into();
     run.assumptions = vec!["derive(Debug) output reflects all state of the generated timeline (digest clause only)".into()];
     run.min_sigs = 30;
-    let n: u64 = if run.thorough() { 400_000 } else { 20_000 };
+    let n: u64 = if run.thorough() { 400_000 } else { 100_000 };
     let seed = run.seed;
     let rc = run.replay_case();
     run.parallel(|w, nw, acc| {
